@@ -40,3 +40,21 @@ def compound(entry, tier, **kw):
     kw.setdefault('uf', ('fmul', 'fadd'))
     kw.setdefault('note', 'fmul/fadd abstracted by uninterpreted functions (the claims are equalities with the reference expression)')
     return Query(nm, 'sp_compound.cpp', 'harness_compound_' + entry, tus=COMP_TU, **kw)
+
+MOB_TU = ['src/ompl/base/spaces/special/src/MobiusStateSpace.cpp', 'src/ompl/base/src/StateSpace.cpp',
+          'src/ompl/base/spaces/src/SO2StateSpace.cpp', 'src/ompl/base/spaces/src/RealVectorStateSpace.cpp']
+
+
+def mobius(entry, tier, **kw):
+    kw.setdefault('timeout', 300 if tier == 'quick' else 1200)
+    kw.setdefault('unwind', 5)
+    return Query('mobius_' + entry, 'sp_mobius.cpp', 'harness_mobius_' + entry, tus=MOB_TU, cxxflags=RNG_ENV, **kw)
+
+SO3_TU = ['src/ompl/base/spaces/src/SO3StateSpace.cpp']
+
+
+def so3(entry, tier, **kw):
+    kw.setdefault('timeout', 300 if tier == 'quick' else 1200)
+    kw.setdefault('unwind', 4)
+    return Query('so3_' + entry, 'sp_so3.cpp', 'harness_so3_' + entry, tus=SO3_TU, cxxflags=RNG_ENV, stubs=('trig.c',),
+                 renames={'acos': 'vt_acos', 'sin': 'vt_sin', 'cos': 'vt_cos'}, **kw)
